@@ -429,6 +429,7 @@ func init() {
 		c.Arm = "seq"
 		small := rng.Chance(0.5)
 		c.Cfg = genConfig(rng, small)
+		c.Slash = rng.Chance(0.1)
 		s := newSwarm(rng, []string{"put", "del", "get", "sync", "merge", "restart", "batch"}, 40)
 		s.W["put"] += 5
 		s.W["restart"] += 3
@@ -642,6 +643,7 @@ func init() {
 	generators["C20"] = func(c *Case, rng *vrt.Rand, tier string) func(r *Runner, i int) *Op {
 		c.Arm = "seq"
 		c.Cfg = genConfig(rng, rng.Chance(0.6))
+		c.Slash = rng.Chance(0.35) // a data directory named with a trailing separator is a legal way to name it
 		if rng.Chance(0.6) {
 			c.Cfg.IO = 1
 		}
@@ -668,6 +670,7 @@ func init() {
 	generators["C06"] = func(c *Case, rng *vrt.Rand, tier string) func(r *Runner, i int) *Op {
 		c.Arm = "seq"
 		c.Cfg = genConfig(rng, rng.Chance(0.8))
+		c.Slash = rng.Chance(0.1)
 		s := newSwarm(rng, []string{"put", "del", "batch", "merge", "restart", "get"}, 45)
 		s.W["put"] += 6
 		s.W["del"] += 1
